@@ -16,12 +16,12 @@ TimeScripts(Ws, W2s, Fs, K) == {<<w1>> \o fs \o <<w2>> : w1 \in Ws, w2 \in W2s, 
 (* validity windows: 2 s, 4 s, 120 s, already past half-life (issued 200 s into a 400 s validity), not yet valid *)
 WinSmall == {W(0, 2), W(0, 4), W(0, 120), W(-200, 200), W(20, 100)}
 WinBig   == WinSmall \cup {W(0, 7200), W(-7200, 7200)}
-FailSmall == {F("err"), F("noid")}
-FailBig   == {F("err"), F("noid"), F("empty")}
-ScriptsSmall == TimeScripts(WinSmall, WinSmall, FailBig, 2)
-ScriptsBig   == TimeScripts(WinBig, WinBig, FailBig, 3)
-StepsSmall == {{1}, {7}, {60}, {7, 60}}
-StepsBig   == {{1}, {10}, {59}, {60}, {3600}, {59, 3600}, {1, 60}}
+Fails == {F("err"), F("noid"), F("empty")}
+ScriptsSmall == TimeScripts(WinSmall, WinSmall, Fails, 2)
+ScriptsBig   == TimeScripts(WinBig, WinBig, Fails, 3)
+(* a behaviour moves its clock in steps of one size (mixed step sizes are left to the runs of the real code) *)
+StepsSmall == {{2}, {7}, {60}}
+StepsBig   == {{1}, {10}, {59}, {60}, {61}, {3600}}
 (* for the defect variants: one script that exercises the variant *)
 ScriptsDefect == {<<W(0, 120), F("noid"), F("err"), W(-200, 200)>>}
 NoSteps == {{}}
